@@ -259,9 +259,9 @@ func checkC12(p *Prog, rp *Report) {
 			}
 			ver.check(n == 0, "control.FileHash.Verifier", p.Pos(vf.Pos()), fmt.Sprintf("%d rows (6 algorithm names x 5 hash lengths) + invalid hex", rows), strings.Join(problems, "; "))
 		}
-		fs := fatalSites([]*ssa.Function{vf, p.Func("control", "FileHashFromHasher")})
+		fs, softFs := hardSites(fatalSites([]*ssa.Function{vf, p.Func("control", "FileHashFromHasher")}))
 		if len(fs) == 0 {
-			ver.ok("control.FileHash.Verifier:no-exit", p.Pos(vf.Pos()), "no log.Fatal / os.Exit / panic reachable")
+			ver.ok("control.FileHash.Verifier:no-exit", p.Pos(vf.Pos()), "no log.Fatal / os.Exit / unguarded panic reachable"+softNote(softFs))
 		}
 		for _, s := range fs {
 			ver.bad("control.FileHash.Verifier:no-exit", p.Pos(s.Pos), s.What+" reachable: asking for a verifier can terminate the process", nil)
@@ -387,6 +387,23 @@ func newC12Env(p *Prog) *c12Env {
 		}
 		return nil, false
 	}
+	// io.WriteString(w, s) on a hash object is a Write of the bytes of s (real hashes have no WriteString)
+	m.Hooks["io.WriteString"] = func(m *Machine, st *State, call *ssa.CallCommon, args []Val) ([]Val, bool) {
+		tag := hashTag(st, args[0])
+		str, isStr := args[1].(string)
+		if tag == "" || !isStr {
+			return nil, false
+		}
+		e.writes = append(e.writes, tag+"|"+fmtVal(byteSliceVal(st, []byte(str)), none))
+		n := e.writeN
+		if int64(len(str)) < n {
+			n = int64(len(str))
+		}
+		if e.writeErr {
+			return []Val{&TupleV{E: []Val{n, IfaceV{T: errType, V: "hash write failed"}}}}, true
+		}
+		return []Val{&TupleV{E: []Val{n, nilV{}}}}, true
+	}
 	e.m = m
 	e.st = initState(m, "hashio", "control")
 	return e
@@ -474,6 +491,38 @@ func c12Count(p *Prog, rp *Report) {
 			problems = append(problems, "NewHasher of an unknown algorithm does not return (nil, error)")
 		}
 		report("hashio.NewHasher", problems, "name = the requested name, hash = GetHash(name), size = 0; unknown name -> (nil, error)")
+	}
+	// other ways into a hasher: io.MultiWriter (of which the fan-out writers are made), io.WriteString and io.Copy
+	// hand strings to an element through WriteString when it has that method, so it has to count like Write
+	if e := newC12Env(p); types.NewMethodSet(hpT).Lookup(hasherT.Obj().Pkg(), "WriteString") != nil {
+		var problems []string
+		ret, why := e.call(nh, "sha512")
+		tv, _ := ret.(*TupleV)
+		if why != "" || tv == nil || !errIsNil(tv.E[1]) {
+			problems = append(problems, "undecided: NewHasher: "+why)
+		} else {
+			h := tv.E[0]
+			e.writeN = 5
+			e.method(h, hpT, "Write", byteSliceVal(e.st, []byte("hello")))
+			e.writeN = 3
+			res, why := e.method(h, hpT, "WriteString", "abc")
+			if why != "" {
+				problems = append(problems, "undecided: WriteString: "+strings.TrimPrefix(why, "undecided: "))
+			} else {
+				if wt, _ := res.(*TupleV); wt == nil || wt.E[0] != int64(3) || !errIsNil(wt.E[1]) {
+					problems = append(problems, "WriteString of 3 bytes does not return (3, nil) as the hash reported")
+				}
+				if len(e.writes) != 2 {
+					problems = append(problems, fmt.Sprintf("after Write and WriteString the hash was written %d times, want 2", len(e.writes)))
+				}
+				if sz, why := e.method(h, hpT, "Size"); why != "" {
+					problems = append(problems, why)
+				} else if sz != int64(8) {
+					problems = append(problems, fmt.Sprintf("after Write of 5 bytes and WriteString of 3 bytes Size() = %v, want 8: io.MultiWriter hands strings (io.WriteString, io.Copy from a strings.Reader) to WriteString, so the fan-out writers under-report the length", sz))
+				}
+			}
+		}
+		report("hashio.Hasher.WriteString", problems, "counts and forwards like Write")
 	}
 	// Write / Size / Sum / Name
 	for _, acc := range []string{"Write", "Size", "Sum", "Name"} {
